@@ -9,6 +9,7 @@ import propka.protonate
 import propka.vector_algebra
 
 ID = 'C17'
+HORIZON_S = 1800   # one case = one input under all its transformations
 LEVEL = 'exploration'
 LEVEL_TEXT = ('Every residue of the reference proteins in chain context (7-residue windows with stride 5; thorough: stride 1 and whole '
               'chains), every ligand template and the fragments flattened into a coordinate plane are run through the real program in '
